@@ -409,9 +409,9 @@ reg("C14", gen=lambda rng, n, tier: F.c14(rng, n), budget=(2500, 25000), absolut
     theorems=[], assumptions=["SIGPIPE disposition, kernel pipe semantics and EINTR handling of std are runtime facts "
                               "exercised, not proved"])
 
-reg("C18", gen=lambda rng, n, tier: F.c18(rng, n, maxlen=(3 if tier == "quick" else 4)), budget=(2000, 20000),
+reg("C18", gen=lambda rng, n, tier: F.c18(rng, n, maxlen=(4 if tier == "quick" else 5)), budget=(4000, 40000),
     absolute=True, nontrivial=lambda c, m: m[0] == "0",
-    rule="every string up to length 3 (4 thorough) over {1,2,0,-,+,:,=,{,},comma,backslash,n,a,space,e-acute} "
+    rule="every string up to length 4 (5 thorough) over {1,2,0,-,+,:,=,{,},comma,backslash,n,a,space,e-acute} "
          "through UserBoundsList::from_str in-process (accept/reject and the parsed structure compared with the "
          "model), longer random strings biased to well-formed pieces, and the rendering through the real binary",
     theorems=[], assumptions=["braces inside a fallback are outside the statement (Unspecified_C18)"])
@@ -422,3 +422,85 @@ reg("C19", gen=lambda rng, n, tier: F.c19(rng, n, full=(tier == "thorough")), bu
          "--fallback-oob, -M} with representative values (quick: random small subsets with value variants - "
          "multi-byte/empty -d and -r, -M 0, bounds shapes; thorough: all 5*2^14 subsets), and reorderings",
     theorems=[], assumptions=["-e in -b/-l mode and several mode options at once are outside the statement"])
+
+
+# ------------------------------------------------------------------ C16 / C17
+
+reg("C16", gen=lambda rng, n, tier: F.regex(rng, n), budget=(4000, 40000), absolute=True,
+    compare=lambda c: True,
+    rule="-e with regexes of the modelled family (single char, class, alternations of different lengths, '+' runs, "
+         "groups, multi-byte literals) x bounds x {-g, -t l|r|b, -p -r R, -r R with $-sequences, -s, -m, -j, --json, "
+         "-z, fallbacks}; every case compared with the model (whose matcher is the mini engine of Model/Regex.v)",
+    theorems=[], assumptions=["regexes outside the family are outside the theorems (anchors, look-around, empty matches)"])
+
+
+def c17_measure(ctx):
+    """peak RSS of the real binary while one dimension of the input grows"""
+    import subprocess, tempfile, os
+    from common import BUILD
+    tuc = ctx["tuc"]
+    tmpd = os.path.join(BUILD, "tmp")
+    os.makedirs(tmpd, exist_ok=True)
+    big = ctx["tier"] == "thorough"
+    MB = 1 << 20
+    sizes = [1 * MB, 16 * MB, (256 if big else 64) * MB]
+    recs = [10 ** 4, 10 ** 5, (10 ** 7 if big else 10 ** 6)]
+
+    def rss(argv, path):
+        r = subprocess.run(["/usr/bin/time", "-f", "%M", tuc] + argv, stdin=open(path, "rb"),
+                           stdout=subprocess.DEVNULL, stderr=subprocess.PIPE, timeout=1200)
+        kb = int(r.stderr.decode().strip().splitlines()[-1])
+        return kb, r.returncode
+
+    def one_line(n, kind):
+        if kind == "nodelim":
+            return b"a" * n + b"\n"
+        if kind == "delims":
+            return (b"abcdefg-" * (n // 8)) + b"\n"
+        if kind == "tail":          # a short selected field, then a long unselected tail
+            return b"k-" + b"x" * n + b"\n"
+        return b"x" * n + b"-k\n"  # a long unselected field first
+
+    plans = []
+    for kind, argv in (("nodelim", ["-M", "1", "-d", "-", "-f", "1"]), ("delims", ["-M", "1", "-d", "-", "-f", "2"]),
+                       ("tail", ["-M", "1", "-d", "-", "-f", "1"]), ("head", ["-M", "1", "-d", "-", "-f", "2"]),
+                       ("delims", ["-M", "1", "-d", "-", "-f", "3:", "-r", "+"])):
+        plans.append(("-M, one line, %s" % kind, argv, [(n, lambda n=n, kind=kind: one_line(n, kind)) for n in sizes]))
+    rec = b"alpha-beta-gamma\n"
+    plans.append(("-f fast lane, records", ["-d", "-", "-f", "2"], [(k, lambda k=k: rec * k) for k in recs]))
+    plans.append(("-f general path, records", ["-d", "-", "-f", "2,1", "-p"], [(k, lambda k=k: rec * k) for k in recs]))
+    plans.append(("-c, records", ["-c", "2:3"], [(k, lambda k=k: "aé€x\n".encode() * k) for k in recs]))
+    plans.append(("-l forward, lines", ["-l", "2,5:7"], [(k, lambda k=k: b"line of text\n" * k) for k in recs]))
+    plans.append(("-l forward open range, lines", ["-l", "3:"], [(k, lambda k=k: b"line of text\n" * k) for k in recs]))
+    results, bad = [], []
+    SLACK_KB = 8 * 1024
+    for name, argv, series in plans:
+        vals = []
+        for n, mk in series:
+            path = os.path.join(tmpd, "c17.in")
+            with open(path, "wb") as f:
+                f.write(mk())
+            kb, rc = rss(argv, path)
+            vals.append((n, kb, rc))
+        os.remove(path)
+        results.append({"plan": name, "argv": argv, "series": [{"size": n, "peak_rss_kb": kb, "status": rc} for n, kb, rc in vals]})
+        base = vals[0][1]
+        for n, kb, rc in vals[1:]:
+            if kb > base + SLACK_KB or rc != 0:
+                bad.append(("peak memory grows with the input (%s): %d kB at size %d vs %d kB at size %d"
+                            % (name, kb, n, base, vals[0][0]),
+                            {"why": "peak RSS grows", "plan": name, "argv": argv, "series": vals,
+                             "reproduce": "generate the input of the plan and run: /usr/bin/time -f %%M tuc %s < input" % " ".join(argv)}))
+                break
+    return len(plans) * 3, bad, {"memory_measurements": results, "slack_kb": SLACK_KB}
+
+
+reg("C17", gen=lambda rng, n, tier: F.stream(rng, n), budget=(600, 3000), absolute=False,
+    extra_check=c17_measure,
+    nontrivial=lambda c, m: True,
+    rule="peak RSS (wait4, via /usr/bin/time) of the real binary while the input grows along the dimension the bound "
+         "must not depend on: one -M line of 1, 16, 64 MB (thorough: 256 MB) without delimiters / with many / with a "
+         "long unselected tail or head; 10^4..10^6 (thorough 10^7) records for -f (fast and general) and -c; as many "
+         "lines for -l with ascending bounds; growth beyond 8 MB over the smallest size is a violation; plus a "
+         "correspondence batch on -M",
+    theorems=[], assumptions=["allocator, Vec growth policy and page accounting are runtime facts: measured, not proved"])
